@@ -14,6 +14,59 @@ func collect(repo string, f *facts) {
 	parseFacts(f)
 	frameFacts(f)
 	routeFacts(f)
+	redactFacts(f)
+}
+
+// ---- C14: transform/tredactemail ----
+func redactFacts(f *facts) {
+	const file = "transform/tredactemail/redactemail.go"
+	f.note["redact_trailing_dot_checks_number"] = "redactemail.go redactFindEmailEnd: the `dotIndex == len(src)-1` case calls redactEmailCheckNumber before returning len(src)"
+	f.bool["redact_trailing_dot_checks_number"] = nil
+	if fd := fn(file, "redactFindEmailEnd", ""); fd != nil {
+		inspect(fd.Body, func(n ast.Node) bool {
+			cc, ok := n.(*ast.CaseClause)
+			if !ok || len(cc.List) != 1 || src(cc.List[0]) != "dotIndex == len(src)-1" {
+				return true
+			}
+			checked := false
+			for _, st := range cc.Body {
+				if is, ok := st.(*ast.IfStmt); ok && strings.HasPrefix(src(is.Cond), "redactEmailCheckNumber(src[atIndex+1") && endsInReturn(is.Body) {
+					checked = true
+				}
+			}
+			f.bool["redact_trailing_dot_checks_number"] = bp(checked)
+			return true
+		})
+	}
+	// character tables of init(): ranges assigned to both tables, extra characters of validAddressChars
+	f.note["redact_word_ranges"] = "redactemail.go init: byte ranges set in validWordChars (and validAddressChars)"
+	f.note["redact_addr_extra"] = "redactemail.go init: single characters set in validAddressChars only"
+	var ranges, extra []string
+	if fd := fn(file, "init", ""); fd != nil {
+		for _, st := range fd.Body.List {
+			switch x := st.(type) {
+			case *ast.ForStmt:
+				t := src(x)
+				if strings.Contains(t, "validAddressChars[c] = true") && strings.Contains(t, "validWordChars[c] = true") {
+					var lo, hi string
+					if as, ok := x.Init.(*ast.AssignStmt); ok {
+						lo = strings.Trim(strings.TrimSuffix(strings.TrimPrefix(src(as.Rhs[0]), "byte("), ")"), "'")
+					}
+					if be, ok := x.Cond.(*ast.BinaryExpr); ok && be.Op == token.LEQ {
+						hi = strings.Trim(strings.TrimSuffix(strings.TrimPrefix(src(be.Y), "byte("), ")"), "'")
+					}
+					ranges = append(ranges, lo+"-"+hi)
+				}
+			case *ast.AssignStmt:
+				t := src(x)
+				if strings.HasPrefix(t, "validAddressChars['") && strings.HasSuffix(t, "] = true") {
+					extra = append(extra, strings.Trim(strings.TrimSuffix(strings.TrimPrefix(t, "validAddressChars["), "] = true"), "'"))
+				}
+			}
+		}
+	}
+	f.strs["redact_word_ranges"] = ranges
+	f.strs["redact_addr_extra"] = extra
 }
 
 // mergeLoopLengthPrefixed: in the given function, the `for _, tkey := range tempKeys` loop appends a length prefix
